@@ -197,34 +197,34 @@ impl<'a, 'b> PartialEq<Template<'b>> for Template<'a> {
             let bp = &b[bi];
 
             match (&ap.0, &bp.0) {
-                (PartKind::Text { value: ref a }, PartKind::Text { value: ref b }) => {
-                    let a = a.get();
-                    let b = b.get();
+                // Skip over text that's empty or has been fully consumed
+                // This needs to happen regardless of what the other part is
+                (PartKind::Text { value: ref a }, _) if ati == a.get().len() => {
+                    ai += 1;
+                    ati = 0;
 
-                    let at = &a[ati..];
-                    let bt = &b[bti..];
+                    continue;
+                }
+                (_, PartKind::Text { value: ref b }) if bti == b.get().len() => {
+                    bi += 1;
+                    bti = 0;
+
+                    continue;
+                }
+                (PartKind::Text { value: ref a }, PartKind::Text { value: ref b }) => {
+                    // Compare bytes rather than `str`s; the fragments may be
+                    // split inside a multi-byte character relative to each other
+                    let at = &a.get().as_bytes()[ati..];
+                    let bt = &b.get().as_bytes()[bti..];
 
                     let len = cmp::min(at.len(), bt.len());
 
-                    let at = &at[..len];
-                    let bt = &bt[..len];
-
-                    if at != bt {
+                    if at[..len] != bt[..len] {
                         return false;
                     }
 
                     ati += len;
                     bti += len;
-
-                    if ati == a.len() {
-                        ai += 1;
-                        ati = 0;
-                    }
-
-                    if bti == b.len() {
-                        bi += 1;
-                        bti = 0;
-                    }
 
                     continue;
                 }
@@ -243,18 +243,25 @@ impl<'a, 'b> PartialEq<Template<'b>> for Template<'a> {
         }
 
         // If there's any data left then it would have to be empty text
-        for part in a[ai..].iter().chain(b[bi..].iter()) {
-            let PartKind::Text { ref value } = part.0 else {
-                return false;
-            };
+        // The first remaining part on either side may already be partially consumed
+        fn is_empty(parts: &[Part], mut consumed: usize) -> bool {
+            for part in parts {
+                let PartKind::Text { ref value } = part.0 else {
+                    return false;
+                };
 
-            if !value.get().is_empty() {
-                return false;
+                if value.get().len() != consumed {
+                    return false;
+                }
+
+                consumed = 0;
             }
+
+            true
         }
 
         // If all data was processed then the templates are equal
-        true
+        is_empty(&a[ai..], ati) && is_empty(&b[bi..], bti)
     }
 }
 
